@@ -45,6 +45,7 @@ type Recorder struct {
 	nontrivial   map[uint64]struct{}
 	classes      map[string]int64
 	samples      []any
+	autoSamples  []any // canonical renderings of the first non-trivial cases, used when a harness records no explicit samples
 	assumptions  map[string]struct{}
 	excluded     map[string]int64
 	knownLines   map[string]struct{}
@@ -92,6 +93,13 @@ func (r *Recorder) NonTrivial(canon string) {
 	h := fnv.New64a()
 	h.Write([]byte(canon))
 	r.mu.Lock()
+	if _, seen := r.nontrivial[h.Sum64()]; !seen && len(r.autoSamples) < 4 {
+		c := canon
+		if len(c) > 800 {
+			c = c[:800] + "…"
+		}
+		r.autoSamples = append(r.autoSamples, map[string]any{"non_trivial_case": c})
+	}
 	r.nontrivial[h.Sum64()] = struct{}{}
 	r.mu.Unlock()
 }
@@ -341,7 +349,7 @@ func Flush() {
 	for _, r := range reg {
 		r.mu.Lock()
 		p := part{Property: r.property, Level: r.level, Rule: r.rule, Evaluations: r.evals,
-			Classes: r.classes, Samples: r.samples, Excluded: r.excluded, Extra: r.extra,
+			Classes: r.classes, Samples: append(append([]any(nil), r.samples...), r.autoSamples[:autoN(len(r.samples), len(r.autoSamples))]...), Excluded: r.excluded, Extra: r.extra,
 			Inconclusive: r.inconclusive, WallS: time.Since(r.start).Seconds()}
 		for h := range r.nontrivial {
 			p.Hashes = append(p.Hashes, h)
@@ -391,6 +399,14 @@ func Flush() {
 			_ = os.Rename(tmp, filepath.Join(dir, name))
 		}
 	}
+}
+
+// autoN: how many automatic samples to add (only when the harness recorded none itself).
+func autoN(explicit, auto int) int {
+	if explicit > 0 {
+		return 0
+	}
+	return auto
 }
 
 // Main is the TestMain body of every harness package.
